@@ -45,10 +45,15 @@ class C17(C16):
                    ("/ABS_OUTSIDE/s2.csv", "/ABS_OUTSIDE/s2.csv"), ("file:/ABS_OUTSIDE/s2.csv", "FILE:\\ABS_OUTSIDE/s2.csv"),
                    ("\\ABS_OUTSIDE/s2.csv", "/ABS_OUTSIDE"), ("..", "../.."), ("a/../..", "../../"),]
         for from_root, from_a in escapes:
-            for place in ("root-item", "root-file", "nested-file"):
+            for place in ("root-item", "root-item-abs", "root-file", "nested-file"):
                 files = [{"rel": "f1.csv", "blocks": [t(1)]}, {"rel": "a/f2.csv", "blocks": [t(2)]}]
                 roots = ["/f1.csv"]
-                if place == "root-item":
+                if place == "root-item-abs":
+                    # the root item written as the root folder's own absolute path followed by the escape
+                    if from_root.startswith(("ABS", "/", "file:", "\\")):
+                        continue
+                    roots = ["ROOT/" + from_root]
+                elif place == "root-item":
                     roots = [from_root if from_root.startswith(("ABS", "/", "file:", "\\")) else "/" + from_root]
                 elif place == "root-file":
                     files[0]["blocks"].append({"k": "include", "lines": [from_root]})
@@ -59,6 +64,12 @@ class C17(C16):
                     out.append({"tree": {"folders": ["", "a", "c"], "links": links, "files": files},
                                 "cfg": {"use_root": True, "roots": roots, "raising": raising, "allow_include": True,
                                         "start_pattern": None}})
+        # a root folder whose name has a dot in it (it is a folder all the same): the ordinary and the escaping routes
+        for roots, inc in ((["/"], None), (["/f1.csv"], "../outside/secret.csv"), (["/../outside/secret.csv"], None), (["/f1.csv"], "a/f2.csv")):
+            files = [{"rel": "f1.csv", "blocks": [t(1)] + ([{"k": "include", "lines": [inc]}] if inc else [])},
+                     {"rel": "a/f2.csv", "blocks": [t(2)]}]
+            out.append({"tree": {"folders": ["", "a"], "links": [], "files": files, "root_name": "inputs.v2"},
+                        "cfg": {"use_root": True, "roots": roots, "raising": False, "allow_include": True, "start_pattern": None}})
         # folders whose listing meets an outward link
         for spec in ("/", "/a"):
             out.append({"tree": {"folders": ["", "a", "c"], "links": links, "files": [{"rel": "f1.csv", "blocks": [t(1)]}]},
